@@ -323,8 +323,10 @@ Proof.
   set (s1 := modc q (set_pending rest) s).
   assert (G1 : Good s1). { apply modc_inert_good; [exact G|]. intros c. reflexivity. }
   destruct r as [l|].
-  - apply authenticate_good; [apply ppq_good|exact G1| |intros E; congruence].
-    subst s1. cbn. unfold upd. rewrite Nat.eqb_refl. cbn. exact Hm.
+  - assert (GA : Good (st (authenticate (ppq q) q i dg l s1))).
+    { apply authenticate_good; [apply ppq_good|exact G1| |intros E; congruence].
+      subst s1. cbn. unfold upd. rewrite Nat.eqb_refl. cbn. exact Hm. }
+    destruct (authenticate (ppq q) q i dg l s1); cbn in *; [exact GA|apply cl_good; exact GA|exact GA].
   - apply bad_good. exact G1.
 Qed.
 
